@@ -1,12 +1,14 @@
 (* C15 — a failed load leaves nothing behind (for the references textX itself stores; the
    run-time reachability is observed by the check, see design/C15.md). *)
 From TxV Require Import Core.Base Gen.SrcUserCls Model.UserCls Proofs.UserClsProofs Proofs.UserClsLogProofs Proofs.UserClsSrcProofs.
+From TxV Require Model.RepoDefs Gen.SrcRepo Model.Repo Proofs.RepoProofs Proofs.UserClsRepoProofs.
 
 (* FULL STATEMENT (not provable in this model: frames, tracebacks and exception chaining are not
    represented): after a failing load no object allocated by it is reachable from textX, its
    classes or the metamodel.
 
-   Proved, partial: in every history of the load machine, when the running load raises, none of
+   Proved, partial: the repositories on the repository model of C17/C18 (C15_repositories_restored
+   below); and in every history of the user-class load machine, when the running load raises, none of
    the user objects it has allocated keeps an entry in `_tx_obj_attrs` (the only place where a
    user class refers to objects), none of its models stays in a model repository, and the load
    is no longer running (its parsers are not counted any more, see C15_classes_uninstrumented). *)
@@ -38,6 +40,40 @@ Theorem C15_next_load_fresh_partial : forall d0 ops,
                cls_same d0 (s_cls (run replace_names restore_names (init d0) (ops ++ ops2))).
 Proof. exact src_idle_is_initial. Qed.
 Print Assumptions C15_next_load_fresh_partial.
+
+(* THE MODEL REPOSITORIES, on the repository model of C17/C18 (Model/Repo.v: import providers and
+   GlobalRepo providers with registered patterns, with or without a metamodel-global repository,
+   main model from a file or from a string; failure phases: missing file, syntax error, nothing found
+   for an import, unresolved reference, object processor, model processor of an imported or of the
+   main model; its cleanup handlers are read from the source by repo_tr.py, Gen/SrcRepo.v).
+   At every point of every history of loads, string loads and file rewrites: if the next load fails,
+   the heap of model objects, all_models, every model's local_models, the set of models under
+   construction and the resolved reference targets are exactly what they were when the load began,
+   and every model still registered existed before the load.  (Proved by the C17/C18 builder;
+   composed here so that the repository half of C15 does not rest on the `s_repo` abstraction of the
+   user-class machine alone.) *)
+Theorem C15_repositories_restored : forall c builtins fs0 ops s',
+  let s := Repo.run_hist c fs0 (Repo.init_state builtins) ops in
+  (exists fs f e, Repo.load_main fs c f s = (inl e, s')) \/ (exists fs fc e, Repo.load_str fs c fc s = (inl e, s')) ->
+  Repo.heap s' = Repo.heap s /\ Repo.allm s' = Repo.allm (Repo.begin_op c s) /\ Repo.locals s' = Repo.locals s /\
+  Repo.constr s' = Repo.constr s /\ Repo.targets s' = Repo.targets s /\
+  (forall k v, In (k, v) (Repo.allm s') -> v < length (Repo.heap s)).
+Proof. exact UserClsRepoProofs.failed_load_repositories_restored. Qed.
+Print Assumptions C15_repositories_restored.
+
+(* non-vacuity: global repository, a GlobalRepo pattern reaching files 0 and 1, an earlier string
+   model; a string main with an unresolved reference fails: everything is as before *)
+Example C15_repositories_nonvacuous :
+  let fs := [Repo.mkFile [[0; 1]] [100%N] [] false false false; Repo.mkFile [[0; 1]] [101%N] [] false false false] in
+  let c := Repo.init_cfg true false [] in
+  let s := Repo.run_hist c fs (Repo.init_state []) [Repo.OLoadStr (Repo.mkFile [[0; 1]] [103%N] [100%N] false false false)] in
+  let bad := Repo.mkFile [[0; 1]] [104%N] [104%N; 999%N] false false false in
+  Repo.allm s = [(2, 0); (0, 1); (1, 2)] /\
+  (exists e, fst (Repo.load_str fs c bad s) = inl e) /\
+  Repo.allm (snd (Repo.load_str fs c bad s)) = [(2, 0); (0, 1); (1, 2)] /\
+  length (Repo.heap (snd (Repo.load_str fs c bad s))) = 3.
+Proof. vm_compute. repeat split; try reflexivity. eexists. reflexivity. Qed.
+Print Assumptions C15_repositories_nonvacuous.
 
 (* non-vacuity: a load with an imported model in a metamodel-global repository fails after the
    first __init__; before the failure 3 objects are stored and 2 models registered *)
